@@ -95,7 +95,11 @@ class Check(PropertyCheck):
                   "header text - over histories of password changes and requests: handler_needs_credential (any world, any header "
                   "text, any argon2 answer), issued_cookie_provenance (induction over the history: every session cookie was issued to "
                   "a request carrying the then-valid password), hist_no_credential_no_handler, rotation_revokes_old_password, "
-                  "serveC_eq_serve (the raw model refines the abstract one). Both models are tied to the real Application by the "
+                  "serveC_eq_serve (the raw model refines the abstract one), plain_password_exact / configure_plain_nonempty / "
+                  "empty_password_refused; (d) 'without changing any state or disclosing flow data' with the handler bodies as "
+                  "arbitrary functions: no_credential_no_state_change_no_body (one request) and hist_uncredentialed_is_inert "
+                  "(induction over histories with password rotations: state untouched, only refusals, no session created); "
+                  "cross_site_refused_raw (Sec-Fetch-Site classified from the raw header text, case-sensitively). Both models are tied to the real Application by the "
                   "in-process sweep (routes x methods x credential forms x Sec-Fetch-Site x XSRF) and by rotation sequences, including text-vs-bytes boundary "
                   "sequences (every configuration kind x credential = configured / +1 non-ASCII char / -1 char / ASCII residue / none).")
     level_note = ("argon2 (verify / extract_parameters) is a parameter of the model (answers supplied per request); tornado's XSRF "
